@@ -203,7 +203,7 @@ def lean_namespace_of(path):
 # The property theorems are about the hand-written model, which is tied to the code by the correspondence runs (T3) as well;
 # when a T1 tie no longer checks (a rewrite of a leaf function), the property is still decided through T3, the lost tie is
 # recorded in the evidence and the correspondence sample for that property is enlarged.
-TIE_MODULES = {'C10c', 'C12c', 'C14b', 'C19b'}
+TIE_MODULES = {'C10c', 'C12c', 'C14b', 'C19b', 'C14s', 'C19s'}
 # Second route for a property whose theorems are stated on a regenerated definition: the same statements on the hand-written
 # model (theorem modules) together with the correspondence keys that compare that model with the code.
 FALLBACK = {'C08': {'needs': 'search.calculateTime', 'modules': ['M08'], 'alt_keys': {'budget': 'budgeth'}}}
